@@ -203,6 +203,61 @@ def exhaustive(tier):
         step = 1 if fmt == "bson" or tier != "quick" else 11
         for n in range(0, top, step):
             yield {"mode": "include-size", "fmt": fmt, "n": n, "scope": "root" if n % 2 == 0 else "nested"}
+    for where in ("included", "including"):
+        for route in ("combine_trees", "yaml", "pickle"):
+            for scope in ("root", "nested"):
+                yield {"mode": "aliased", "where": where, "route": route, "scope": scope}
+
+
+def _aliased_case(case, R):
+    """The included tree (or the including one) holds ONE map object at several keys - what a YAML anchor / alias or a
+    pickled shared reference decodes to. The merge is by value all the same."""
+    cc = sandbox._state["cc"]
+    where, route, scope = case["where"], case["route"], case["scope"]
+    R.label("mode:aliased", "aliased:" + route)
+    R.nontrivial = True
+    shared = {"host": "h", "opts": {"x": 1, "y": [1, 2]}}
+    aliased = {"first": shared, "second": shared, "third": {"inner": shared}, "n": 1}
+    other = {"first": {"port": 1}, "second": {"port": 2, "opts": {"z": 3}}, "third": {"inner": {"port": 3}, "k": 0}, "m": 2}
+    base, child = (other, aliased) if where == "included" else (aliased, other)
+    want = ref_merge(copy.deepcopy(base), copy.deepcopy(child))
+    if route == "combine_trees":
+        b, c = copy.deepcopy(base), copy.deepcopy(child)
+        got = cc.IncludeField().combine_trees(b, c)
+        R.check(tree_eq(got, want), "merge-ref", "aliased:combine_trees", lambda: "combine_trees with one map object at several keys of the %s tree: %s" % (where, tree_diff(want, got)))
+        return
+    fmt = route
+    with sandbox.CaseDir() as d:
+        schema = cc.Schema(dynamic=True)
+        schema.include = cc.IncludeField(startdir=d)
+        schema.sub = cc.Schema(dynamic=True)
+        schema.sub.include = cc.IncludeField(startdir=d)
+        formatter = cc.ConfigFormat.get(fmt)
+        dummy = schema()
+
+        def encode(tree):
+            if fmt == "yaml":
+                import yaml
+                return yaml.dump(tree, Dumper=yaml.Dumper).encode()  # (PyYAML writes the shared map once, with an anchor, and aliases it)
+            import pickle
+            return pickle.dumps(tree)
+        with open(os.path.join(d, "child." + fmt), "wb") as fp:
+            fp.write(encode(copy.deepcopy(child)))
+        b = copy.deepcopy(base)
+        b["include"] = "child." + fmt
+        doc = encode(b if scope == "root" else {"sub": b})
+        if fmt == "yaml" and where == "including":
+            R.check(b"&id" in doc and b"*id" in doc, "harness", "aliased:anchor", "the YAML document carries no anchor / alias")
+        cfg = schema()
+        try:
+            cfg.loads(doc, fmt)
+            holder = cfg if scope == "root" else cfg.sub
+            got = {k: v for k, v in holder.to_tree().items() if k != "include" and not (k == "sub" and scope == "root")}
+            err = None
+        except Exception as exc:
+            got, err = None, exc
+        R.check(err is None and tree_eq(got, want), "equivalence", "aliased:%s:%s" % (fmt, where),
+                lambda: "%s document, one map object at several keys of the %s tree (%s scope): %s" % (fmt, where, scope, err if err else tree_diff(want, got)))
 
 
 def _include_size_case(case, R):
@@ -234,6 +289,8 @@ def _include_size_case(case, R):
 def run_case(case, R):
     if case.get("mode") == "include-size":
         return _include_size_case(case, R)
+    if case.get("mode") == "aliased":
+        return _aliased_case(case, R)
     cc = sandbox._state["cc"]
     mode = case["mode"]
     R.label("mode:" + mode)
